@@ -273,10 +273,29 @@ class Engine(object):
         if cy is None and self.spec_depth == 0:
             self.oblig(st, f"zerodiv@{line}", y != 0, line)
             st.assume(y != 0)
-        q, r = smt.fresh("q"), smt.fresh("r")
-        st.assume(z3.Implies(y != 0, z3.And(x == smt.som(q * y) + r,
-                                            z3.If(y > 0, z3.And(0 <= r, r < y), z3.And(y < r, r <= 0)))))
+        x, y = smt.som(x), smt.som(y)
+        key = (x.get_id(), y.get_id())
+        memo = self.__dict__.setdefault("_divmemo", {})
+        if key in memo:
+            q, r, fact, _keep = memo[key]
+        else:
+            q, r = smt.fresh("q"), smt.fresh("r")
+            fact = z3.Implies(y != 0, z3.And(x == smt.som(q * y) + r,
+                                             z3.If(y > 0, z3.And(0 <= r, r < y), z3.And(y < r, r <= 0)),
+                                             # redundant consequences (help the non-linear core)
+                                             z3.Implies(z3.And(y > 0, x >= 0), z3.And(q >= 0, q <= x)),
+                                             z3.Implies(z3.And(y > 0, x < 0), q < 0)))
+            memo[key] = (q, r, fact, (x, y))
+        st.assume(fact)
         return q, r
+
+    def entails(self, st, cond, timeout_ms=400):
+        """Quick side query: is `cond` implied by the path condition? (False on unknown)"""
+        c = smt.conc_bool(cond)
+        if c is not None:
+            return c
+        r = smt.check_valid(st.pc, cond, timeout_ms=timeout_ms, want_model=False, use_cvc5=False)
+        return r.status == "proved"
 
     def uf(self, name, args, ret):
         f = z3.Function(name, *[a.sort() for a in args], ret)
@@ -379,6 +398,13 @@ class Engine(object):
                 return VArr(a.obj, smt.som(a.off + a.stride * (n - 1)), smt.som(-a.stride), n)
             if cs != 1:
                 raise OutOfSubset(f"line {line}: slice step {step}")
+
+        if (lo is None or smt.conc_int(lo) != 0 or True) and not (lo is None and hi is None):
+            # common case: bounds provably inside the array -> no clamping terms
+            l0 = z3.IntVal(0) if lo is None else lo
+            h0 = n if hi is None else hi
+            if self.entails(st, z3.And(0 <= l0, l0 <= h0, h0 <= n)):
+                return VArr(a.obj, smt.som(a.off + a.stride * l0), a.stride, smt.som(h0 - l0))
 
         def norm(x, default):
             if x is None:
